@@ -26,12 +26,15 @@ fn target_schema(kind: &str) -> Value {
     match kind {
         "struct" => json!({"type": "object", "properties": {"tx": {"type": "integer"}, "ty": {"type": "string"}}, "required": ["tx"]}),
         "enum" => json!({"type": "string", "enum": ["tone", "ttwo"]}),
+        // the same struct, nullable, with the type list in its common (non-sorted) spelling
+        "struct-nullable" => json!({"type": ["object", "null"], "properties": {"tx": {"type": "integer"}, "ty": {"type": "string"}}, "required": ["tx"]}),
+        "string-nullable" => json!({"type": ["string", "null"], "minLength": 1, "maxLength": 9}),
         _ => json!({"type": "string", "minLength": 1, "maxLength": 9}),
     }
 }
 
 pub fn gen_c14_case(g: &mut G) -> Value {
-    let kind = *g.pick(&["struct", "enum", "newtype"]);
+    let kind = *g.pick(&["struct", "enum", "newtype", "struct-nullable", "string-nullable"]);
     let t = json!({"$ref": "#/definitions/Target"});
     let mut defs = Map::new();
     defs.insert("Target".into(), target_schema(kind));
@@ -51,6 +54,9 @@ pub fn gen_c14_case(g: &mut G) -> Value {
     defs.insert("UnionAdj".into(), json!({"oneOf": [
         {"type": "object", "properties": {"tag": {"type": "string", "enum": ["a"]}, "content": t}, "required": ["tag", "content"]},
         {"type": "object", "properties": {"tag": {"type": "string", "enum": ["b"]}, "content": {"type": "integer"}}, "required": ["tag", "content"]}]}));
+    // a reference that survives a conjunction with a sibling adding no constraint
+    defs.insert("TBase".into(), json!({"type": "object", "properties": {"owner": t, "name": {"type": "string"}}, "required": ["owner"]}));
+    defs.insert("TDerived".into(), json!({"allOf": [{"$ref": "#/definitions/TBase"}, {"type": "object", "properties": {"owner": {"description": "the owner, described again"}}}]}));
     if kind == "struct" {
         defs.insert("Merged".into(), json!({"allOf": [t, {"type": "object", "properties": {"extra_m": {"type": "boolean"}}, "required": ["extra_m"]}]}));
     }
@@ -79,7 +85,7 @@ pub fn gen_c14_case(g: &mut G) -> Value {
     let mut which = vec![];
     loop {
         if g.chance(1, 2) {
-            let impls = if kind == "struct" { vec![] } else { vec!["FromStr".to_string(), "Display".to_string()] };
+            let impls = if kind.starts_with("struct") { vec![] } else { vec!["FromStr".to_string(), "Display".to_string()] };
             s.replace.insert("Target".into(), Replace { ty: REPL.into(), impls });
             which.push("replace");
         } else if g.chance(1, 2) {
@@ -208,7 +214,14 @@ impl Property for C14 {
             ("User.map", field_ty(ix, "User", "map").map(|s| s.to_string())),
             ("User.nul", field_ty(ix, "User", "nul").map(|s| s.to_string())),
             ("MapHolder.m2", field_ty(ix, "MapHolder", "m2").map(|s| s.to_string())),
+            ("TBase.owner", field_ty(ix, "TBase", "owner").map(|s| s.to_string())),
         ];
+        // TDerived either wraps TBase (the conjunction added nothing) or restates its members
+        let derived_wraps_base = ix.items.get("TDerived").map(|it| it.fields.iter().any(|f| f.ident.is_none() && mentions(&f.ty, "TBase"))).unwrap_or(false);
+        let mut sites = sites;
+        if !derived_wraps_base {
+            sites.push(("TDerived.owner", field_ty(ix, "TDerived", "owner").map(|s| s.to_string())));
+        }
         let union_sites: Vec<(&str, Vec<String>)> = vec![("UnionExt", variant_tys(ix, "UnionExt")), ("UnionInt", variant_tys(ix, "UnionInt")), ("UnionAdj", variant_tys(ix, "UnionAdj"))];
         let expect_name: Option<(&str, bool)> = if s.replace.contains_key("Target") {
             Some(("Mark3", true))
